@@ -323,7 +323,9 @@ fn oracle(pos_index: usize, name: &str, out: &mut Outcome) -> Check {
     out.class("accepted");
 
     // consistency of memory-region spellings
-    if position.in_expression || matches!(position.name, "declare" | "move-destination" | "move-source" | "measure-target") {
+    // (a name that is a case variant of pi / i / a function name means something else inside an
+    // expression — the statement's exception — so it cannot take part in the consistency program)
+    if !ident::is_expression_word(name) && (position.in_expression || matches!(position.name, "declare" | "move-destination" | "move-source" | "measure-target")) {
         let consistency = format!(
             "DECLARE {name} REAL[2]\nDECLARE other REAL[2]\nMOVE {name}[1] 0.5\nMOVE other {name}\nRX({name}) 0\nRX(2*{name}[1]) 1\nSET-PHASE 0 \"f\" {name}\nSHIFT-FREQUENCY 0 \"f\" sin({name})+{name}[1]\n"
         );
